@@ -13,11 +13,15 @@ macro_rules! dispatch {
             "C06" => $f::<props::c06::P>($($a),*),
             "C07" => $f::<props::c07::P>($($a),*),
             "C08" => $f::<props::c08::P>($($a),*),
+            "C09" => $f::<props::c09::P>($($a),*),
             "C10" => $f::<props::c10::P>($($a),*),
             "C11" => $f::<props::c11::P>($($a),*),
             "C12" => $f::<props::c12::P>($($a),*),
             "C13" => $f::<props::c13::P>($($a),*),
             "C14" => $f::<props::c14::P>($($a),*),
+            "C16" => $f::<props::c16::P>($($a),*),
+            "C18" => $f::<props::c18::P>($($a),*),
+            "C19" => $f::<props::c19::P>($($a),*),
             other => {
                 eprintln!("unknown property {other}");
                 std::process::exit(2)
